@@ -95,6 +95,7 @@ class DialogueChild(Scripted):
 
 
 RESP_TEXT = {'str': 'y\n', 'cb_str': 'z\n'}
+EXTRA = {'the caller': 'extra_args object'}
 PAUSE = 40          # virtual seconds of silence of a 'pause' step
 LONG = 50
 
@@ -134,7 +135,11 @@ def run_case(mapping, program, chunksize, table, mode, tid, withexit=False, time
 
     def make_cb(kind, i):
         def cb(d):
-            ok = isinstance(d, dict) and 'child' in d and d['child'] is holder.get('child') and 'event_count' in d and 'index' in d
+            # the state dictionary: the child, the index of the event, how many events were handled before this one,
+            # the caller's extra_args object
+            nret = sum(1 for e in holder['rec'].events if e['e'] == 'ret' and not e.get('raised'))
+            ok = (isinstance(d, dict) and 'child' in d and d['child'] is holder.get('child') and 'index' in d
+                  and d.get('event_count') == nret - 1 and d.get('extra_args') is EXTRA)
             holder['rec'].emit(e='cb', idx=d.get('index', -1) if isinstance(d, dict) else -1, dict_ok=bool(ok), ret=kind)
             if kind == 'cb_true':
                 return True
@@ -164,8 +169,12 @@ def run_case(mapping, program, chunksize, table, mode, tid, withexit=False, time
     run_mod.spawn = factory
     err = None
     try:
-        kw = {'encoding': enc} if enc else {}
-        out = run_mod.run('dialogue', timeout=timeout, withexitstatus=withexit, events=events, **kw)
+        if enc and tid % 2:
+            # the unicode entry point
+            out = run_mod.runu('dialogue', timeout=timeout, withexitstatus=withexit, events=events, extra_args=EXTRA, encoding=enc)
+        else:
+            kw = {'encoding': enc} if enc else {}
+            out = run_mod.run('dialogue', timeout=timeout, withexitstatus=withexit, events=events, extra_args=EXTRA, **kw)
     except Exception as e:
         out, err = None, type(e).__name__
     finally:
